@@ -158,6 +158,9 @@ func memOpts(c Config) []memswarm.Option {
 	return opts
 }
 
+// TestKeyN is the key with index i as used by package pk (pk.Key(i) == TestKeyN(i)).
+func TestKeyN(i int) x509.PrivateKey { return TestKey(i) }
+
 func TestKey(i int) x509.PrivateKey {
 	seed := make([]byte, 32)
 	binary.BigEndian.PutUint64(seed[24:], uint64(i)+1)
